@@ -478,7 +478,7 @@ func blockMint(w *World, b *BlockCtx) *big.Int {
 
 func init() {
 	register(&PropSpec{ID: "C28", Level: "exploration",
-		Rule: "clock-driven histories: stake periods of 6..24 blocks whose first block is steered before, inside and after 12:00-14:59 and within / beyond 3 hours of the previous update; trades on the BIP/USDT pool move the price by small amounts, about -10% and large drops and recoveries; genesis emission near the cap in some runs; exact-rational reference model (floor of the percentage change, +10 BIP recovery, level 350*p^(1/4) accepted within 1e-12 of the node's float) compared with the live block reward, the persisted price record, the emission step and the zero-address burn; distinct non-trivial case = distinct update class",
+		Rule: "clock-driven histories: stake periods of 6..24 blocks whose first block is steered before, inside and after 12:00-14:59 and within / beyond 3 hours of the previous update; trades on the BIP/USDT pool move the price by small amounts, about -10% and large drops and recoveries; genesis emission near the cap in some runs; the node under test restarted at random blocks in a third of the runs; exact-rational reference model (floor of the percentage change, +10 BIP recovery, level 350*p^(1/4) accepted within 1e-12 of the node's float) compared with the live block reward, the persisted price record, the emission step and the zero-address burn; distinct non-trivial case = distinct update class",
 		Make: func(r *rand.Rand, seed int64, chain int, tier string) *Scenario {
 			p := Profile{W: map[string]int{"send": 3, "sellusdt": 6, "sellbip": 6, "delegate": 1, "sellpool": 1}, TxMin: 0, TxMax: 3, PAbsent: 0.01}
 			sc := baseScenario("C28", r, seed, chain, tier, p, func(g *GenCfg, n *NodeCfg) {
@@ -499,6 +499,16 @@ func init() {
 			}
 			sc.Genesis = MarshalGenesis(st)
 			steerPriceWindow(r, sc, true)
+			// the node is restarted now and then, also in the middle of a stake period: what it remembers of the
+			// emission, the price record and the withheld level must carry the rule on unchanged
+			if r.Intn(3) == 0 {
+				sc.Params = map[string]int64{"main_restart": 1}
+				for i := range sc.Blocks {
+					if i > 0 && r.Intn(8) == 0 {
+						sc.Blocks[i].Restart = true
+					}
+				}
+			}
 			return sc
 		},
 		Monitors: func(sc *Scenario) []Monitor { return []Monitor{&MonC28{}} },
